@@ -1146,7 +1146,21 @@ class DataFrameSchema(Generic[TDataObject], BaseSchema):
                     None
                     if (len(list(new_index.columns)) == 0)
                     and (new_index is not None)
-                    else new_index
+                    # rebuild the MultiIndex from the remaining levels:
+                    # remove_columns only updates its ``columns`` mapping
+                    # and would leave the removed levels in ``indexes``
+                    else MultiIndex(
+                        indexes=[
+                            index
+                            for index in new_index.indexes
+                            if index.name not in level_temp
+                        ],
+                        coerce=new_index.coerce,
+                        strict=new_index.strict,
+                        name=new_index.name,
+                        ordered=new_index.ordered,
+                        unique=new_index.unique,
+                    )
                 )
             )
         )
